@@ -23,12 +23,12 @@ def run(ctx, rep):
     rep.not_decided = 'the heuristics deciding *which* imports are wanted (use-tree forms, qualified paths, crate::/super::/self:: resolution, re-exports) — value-level string/path logic.'
     rep.trusted = ['syn', 'astq evaluator']
     T = emit.Types(ctx.astq)
-    m0(ctx, rep)
-    m1(ctx, rep, T)
-    m2(ctx, rep, T)
-    m3(ctx, rep)
-    m5(ctx, rep)
-    m4(ctx, rep)
+    rep.section(m0, ctx, rep)
+    rep.section(m1, ctx, rep, T)
+    rep.section(m2, ctx, rep, T)
+    rep.section(m3, ctx, rep)
+    rep.section(m5, ctx, rep)
+    rep.section(m4, ctx, rep)
 
 
 def m0(ctx, rep):
